@@ -3,7 +3,7 @@
 import glob, json, os, re
 root = os.path.dirname(os.path.dirname(os.path.abspath(__file__)))
 rows = []
-for d in sorted(glob.glob(os.path.join(root, "seeded", "*"))):
+for d in sorted(x for x in glob.glob(os.path.join(root, "seeded", "*")) if os.path.isdir(x)):
     m = json.load(open(os.path.join(d, "meta.json")))
     name = os.path.basename(d)
     summary = re.sub(r"\s+", " ", m.get("summary", "")).replace("|", "/")
